@@ -264,8 +264,10 @@ def search(ctx, profile, tags, n_quick, n_thorough, sweep=None, fixed=()):
         for f in sorted(os.listdir(d)):
             if f.endswith(".json"):
                 j = json.load(open(os.path.join(d, f)))
-                if j.get("profile", profile) == profile:
-                    fixed.append(j.get("scenario", j))
+                sc_ = j.get("scenario", j)
+                # other parts of the same property keep their own regression files in this directory: only driven-world scenarios count
+                if j.get("profile") == profile and isinstance(sc_, dict) and "controls" in sc_ and "messages" in sc_:
+                    fixed.append(sc_)
     jobs = [(tree, i, vlib.subseed(ctx.seed, profile, i), per, profile, tags, sweep, fixed[i::nw]) for i in range(nw)]
     st = vlib.run_workers(worker, jobs)
     ex = st.extra.pop("known_examples", {})
